@@ -2,7 +2,8 @@
 """Print the DESIGN.md §14 table from /verif/seeded/*/meta.json."""
 import json, glob, os, re
 rows = []
-for d in sorted(glob.glob('/verif/seeded/*')):
+status = json.load(open('/verif/seeded/STATUS.json')) if os.path.exists('/verif/seeded/STATUS.json') else {}
+for d in sorted(glob.glob('/verif/seeded/C*')):
     m = json.load(open(os.path.join(d, 'meta.json')))
     name = os.path.basename(d)
     notes = m.get('needs_to_manifest', '')
@@ -25,10 +26,10 @@ for d in sorted(glob.glob('/verif/seeded/*')):
         if not how and any('worker process died' in l for l in ls):
             how = 'process.crash'
         break
-    rows.append((name, m['breaks_property'], first, ', '.join(caught) or '—', how, ', '.join(missed)))
-print('| Seeded change | Written for | What it does (from its notes) | Caught by check | Oracle | Not caught by |')
-print('|---|---|---|---|---|---|')
+    rows.append((name, m['breaks_property'], first, ', '.join(caught) or '—', how, ', '.join(missed), status.get(name, '')))
+print('| Seeded change | Written for | What it does (from its notes) | Caught by check | Oracle | Not caught by | Remark |')
+print('|---|---|---|---|---|---|---|')
 for r in rows:
-    print('| %s | %s | %s | %s | %s | %s |' % r)
+    print('| %s | %s | %s | %s | %s | %s | %s |' % r)
 n = len(rows); c = sum(1 for r in rows if r[3] != '—')
 print('\n%d of %d confirmed seeded changes are caught by at least one check within the quick budget (25 s).' % (c, n))
